@@ -18,6 +18,7 @@ import (
 type vfCountProc struct {
 	st     *vfSrvState
 	yields int
+	slowNS int64 // virtual time every request takes (lets queued requests age past the high watermark)
 }
 
 func (p *vfCountProc) Process(in, out *FProtocol) error {
@@ -30,6 +31,9 @@ func (p *vfCountProc) Process(in, out *FProtocol) error {
 	vsched.Note(fmt.Sprintf("process %d", id))
 	for i := 0; i < p.yields; i++ {
 		vsched.Yield() // the handler takes a while
+	}
+	if p.slowNS > 0 {
+		vsched.Sleep(p.slowNS)
 	}
 	out.Transport().Write([]byte{byte(id)})
 	return nil
@@ -51,7 +55,7 @@ type vfSrvState struct {
 }
 
 func vfSrvMake(scn string) (func(), func(*vsched.Exec) (string, *vsched.Violation)) {
-	cfg := map[string]int{"w": 1, "q": 1, "r": 2, "stop": 1, "late": 1, "y": 1, "c": 0, "s": 1, "on": 0}
+	cfg := map[string]int{"w": 1, "q": 1, "r": 2, "stop": 1, "late": 1, "y": 1, "c": 0, "s": 1, "on": 0, "slow": 0}
 	for _, kv := range strings.Split(scn, ",") {
 		p := strings.SplitN(kv, "=", 2)
 		if len(p) == 2 {
@@ -64,7 +68,7 @@ func vfSrvMake(scn string) (func(), func(*vsched.Exec) (string, *vsched.Violatio
 		st = &vfSrvState{invoked: map[int]int{}, routedBefore: map[int]bool{}, afterStop: map[int]bool{}}
 		conn := fakenats.NewConn()
 		st.conn = conn
-		proc := &vfCountProc{st: st, yields: cfg["y"]}
+		proc := &vfCountProc{st: st, yields: cfg["y"], slowNS: int64(cfg["slow"]) * int64(6e9)}
 		pf := NewFProtocolFactory(thrift.NewTBinaryProtocolFactoryConf(nil))
 		// s subjects; on=0 sends every request to the first, on=1 to the last, on=2 alternates
 		subjects := []string{"svc", "svc2", "svc3"}[:cfg["s"]]
@@ -257,10 +261,16 @@ func init() {
 					}
 				}
 			}
+			// a backed-up server: every request takes 6 s of virtual time, so the queued ones are older
+			// than the 5 s high watermark when a worker gets to them (default request hooks)
+			out = append(out, "w=1,q=4,r=4,stop=4,late=0,y=0,slow=1,c=0", "w=2,q=4,r=5,stop=5,late=0,y=0,slow=1,c=0", "w=1,q=1,r=4,stop=4,late=0,y=0,slow=1,c=0")
 			return out
 		},
 		Make: vfSrvMake,
 		Bound: func(tier, scn string) (int, bool) {
+			if strings.Contains(scn, "slow=1") {
+				return 1, true
+			}
 			heavy := !strings.HasSuffix(scn, "c=0") || strings.HasPrefix(scn, "w=2") || strings.Contains(scn, "s=2")
 			switch {
 			case tier == "thorough" && !strings.HasSuffix(scn, "c=0") && strings.HasPrefix(scn, "w=2"):
